@@ -2,6 +2,18 @@
 // Feature `encoding`: model of encoding_rs (assumed, C17): an Encoding is an opaque static value.
 // ---------------------------------------------------------------------------------------------
 pub struct Encoding { pub id: u8 }
+pub mod encoding_rs { pub use super::Encoding; }
+pub mod reader { pub use super::EncodingRef; }
+/// models of the statics encoding_rs::UTF_8 / UTF_16BE / UTF_16LE: three different encodings
+pub exec const UTF_8: &'static Encoding
+    ensures UTF_8.id == 0
+{ &Encoding { id: 0 } }
+pub exec const UTF_16BE: &'static Encoding
+    ensures UTF_16BE.id == 1
+{ &Encoding { id: 1 } }
+pub exec const UTF_16LE: &'static Encoding
+    ensures UTF_16LE.id == 2
+{ &Encoding { id: 2 } }
 
 
 //@extract reader::EncodingRef | src/reader/mod.rs :: enum EncodingRef | serves=C17 features=encoding
